@@ -43,7 +43,13 @@ def run_impl(cases, tag):
     rc, out, err, dt = C.run([C.PY, os.path.join(C.VERIF, 'harness', 'implrun.py'), inp, outp], 3000, env=env)
     if rc != 0:
         raise RuntimeError('implementation runner failed: ' + err[-2000:])
-    return json.load(open(outp))
+    res = json.load(open(outp))
+    for f in (inp, outp):          # scratch: the cases are reproducible from the seed, a violation keeps its own replay file
+        try:
+            os.remove(f)
+        except OSError:
+            pass
+    return res
 
 
 def run_check(pid, units, tier, seed, props_files=None, default_imports='', level_note=''):
@@ -166,7 +172,8 @@ def run_check(pid, units, tier, seed, props_files=None, default_imports='', leve
                     imp = (u.imports or default_imports) if which == 'model' else (u.spec_imports or u.imports or default_imports)
                     groups.setdefault(imp, []).append(i)
             for gi, (imp, idxs) in enumerate(groups.items()):
-                res = C.coq_eval([all_cases[i][1][which] for i in idxs], imp, f'{pid}_{which}{gi}')
+                with C.Lock(shared=True):
+                    res = C.coq_eval([all_cases[i][1][which] for i in idxs], imp, f'{pid}_{which}{gi}')
                 for i, r in zip(idxs, res):
                     store[i] = r
         # specifications given as a reference run of the implementation itself (isolation: the instance running alone)
@@ -189,10 +196,12 @@ def run_check(pid, units, tier, seed, props_files=None, default_imports='', leve
         # whole-step cases are evaluated by the extracted model (OCaml), one driver line per case
         line_idx = [i for i, (u, c) in enumerate(all_cases) if c.get('model_line')]
         if line_idx and model_ok:
-            C.make(['gen/step.vo', 'theories/Lib/Enc.vo'], jobs=16)
-            okb, blog = C.build_armsim()
+            with C.Lock():
+                C.make(['gen/step.vo', 'theories/Lib/Enc.vo'], jobs=16)
+                okb, blog = C.build_armsim()
             if okb:
-                res = C.armsim_run([all_cases[i][1]['model_line'] for i in line_idx])
+                with C.Lock(shared=True):
+                    res = C.armsim_run([all_cases[i][1]['model_line'] for i in line_idx])
                 for i, r in zip(line_idx, res):
                     mres[i] = r
             else:
